@@ -221,7 +221,8 @@ def gen_deck(rng, n_like=None, imp_decrease=False, allow_void_mat=False):
     for _ in range(n_like):
         if not slots:
             break
-        base = rng.choice(level0)
+        # one time in four the latest cell: longer chains
+        base = level0[-1] if rng.random() < 0.25 else rng.choice(level0)
         rbase = resolved(base)
         root = info[base]
         but = {}
